@@ -6,6 +6,7 @@ package h6throttle
 
 import (
 	"fmt"
+	"os"
 	"math"
 	"math/rand/v2"
 	"sort"
@@ -208,7 +209,7 @@ func (h *H) Run(cc core.Cfg, sim *simrt.Sim) *core.Outcome {
 		}
 		window := time.Duration(cfg.Buckets) * cfg.Interval
 		js := fmt.Sprintf(`{"throttle_field":"k","time_field":"time","default_limit":%d,"limit_kind":%q,"bucket_interval":%q,"buckets_count":%d,"limiter_expiration":%q,"rules":[%s]%s}`,
-			cfg.Limit, cfg.Kind, cfg.Interval.String(), cfg.Buckets, (2*window + 5*time.Second).String(), strings.Join(rules, ","), dist)
+			cfg.Limit, cfg.Kind, cfg.Interval.String(), cfg.Buckets, (2*window + cfg.Sim.StallMax + 5*time.Second).String(), strings.Join(rules, ","), dist)
 		conf, err := pipeline.GetConfig(static, []byte(js), map[string]int{"gomaxprocs": 1, "capacity": 16})
 		if err != nil {
 			panic(fmt.Sprintf("throttle config: %v (%s)", err, js))
@@ -319,6 +320,12 @@ func (h *H) check(cfg *Cfg, all []*obs, o *core.Outcome) {
 			return cfg.Rules[rule].Limit, cfg.Rules[rule].Kind
 		}
 		return cfg.Limit, cfg.Kind
+	}
+	if os.Getenv("VERIF_DEBUG") != "" {
+		for _, ob := range all {
+			b, ok := attr(ob)
+			fmt.Printf("ev %d key=%q lvl=%q kind=%s t0=%v t1=%v s0=%d s1=%d pass=%v evTime=%v bucket=%d ok=%v cur0=%d cur1=%d\n", ob.ev.ID, ob.ev.Key, ob.ev.Lvl, ob.ev.TimeKind, ob.t0, ob.t1, ob.s0, ob.s1, ob.pass, ob.evTime.Sub(simrt.Epoch), b, ok, bid(ob.t0), bid(ob.t1))
+		}
 	}
 	passed := map[gk][]*obs{}
 	maybe := map[gk][]*obs{} // every event (any result) that may have been counted in that bucket
